@@ -120,7 +120,9 @@ def handle (op : String) (req : Json) : R Json := do
     let s := run cb ls
     -- specification of the callback positions: the formula over the line lengths; for an aborting
     -- callback the first `abort + 1` of them
-    let positions := callPositions cls d lens
+    -- (`callPositionsFast` = `callPositions`, `callLinesFast` = the list of `callLine k`: theorems `callPositionsFast_eq`,
+    -- `callLinesFast_eq`)
+    let positions := callPositionsFast cls d lens
     let specCalls := match abortAt with
       | none => positions
       | some k => positions.take (k + 1)
@@ -148,7 +150,7 @@ def handle (op : String) (req : Json) : R Json := do
                 ("fast_free", jResult fastFree), ("calls_free", jList jNat free.calls),
                 ("xml", jOpt jModel xml),
                 ("call_positions", jList jNat positions), ("spec_calls", jList jNat specCalls),
-                ("call_lines", jList jNat ((List.range d.spectra.length).map (callLine cls d))),
+                ("call_lines", jList jNat (callLinesFast cls d)),
                 ("layout", jBool (decide (Layout cls d))),
                 ("text_ok", jBool (decide (TextOk d))),
                 ("layout_core_decoded", jBool (decide (LayoutCore cls xd))),
